@@ -19,7 +19,7 @@ RULE = (
 )
 FAULT_KEYS = ["adversarial_choice", "shuffle"]
 PROBE_KEYS = ["sweep_kernels_extracted", "gibbs_draws_verified", "sweeps_full", "choice_fidelity_checked", "gibbs_vectors", "mh_pairs", "dup_state_move", "inbred_move", "skewed_freq_move", "exact_premise_checked", "underflow_skip",
-              "cli_targets_compared", "cli_genotypes_compared", "cli_zero_frequency_allele", "cli_reference_masked", "cli_exact_array_compared"]
+              "cli_targets_compared", "cli_genotypes_compared", "cli_zero_frequency_allele", "cli_reference_masked", "cli_exact_array_compared", "cli_allele_filter"]
 OPTIONAL_PROBES = {"quick": ("underflow_skip",), "thorough": ("underflow_skip",)}
 COMPONENTS = {
     "real": ["mchap.calling.mcmc.{gibbs_options,mh_options,compound_step,mcmc_sampler,greedy_caller}", "mchap.calling.classes.CallingMCMC.fit",
